@@ -42,6 +42,7 @@ S0(G) == [par    |-> [c \in 1..Len(G.chan) |-> c],
           nunreg |-> {},                                \* unregistrations completed: <<c, p, k>>
           structops |-> 0,
           raised |-> FALSE,
+          run    |-> [active |-> FALSE, c |-> 0, nstarted |-> 0, nstopped |-> 0, stopreq |-> FALSE, code |-> -1, n |-> 0],
           waits  |-> {},                                \* suspended activations [e, h, on, byname, name, tmo, ticks]
           ticks  |-> 0]
 
@@ -137,6 +138,8 @@ FireFails(G, S, ln) ==
   LET x == ln.x IN
   (IF ln.e # Len(S.ev) + 1 THEN {<<"M", "eid_order">>} ELSE {})
   \cup
+  (IF ln.n = "stopped" /\ ~S.run.active THEN {<<"C08", "idle_stop">>} ELSE {})
+  \cup
   (IF ln.y \in {1, 2, 3} /\ ~Known(S, x) THEN {<<"M", "unknown_ref">>}
    ELSE IF ln.y = 1 THEN   \* <name>_success
      (IF S.ev[x].flags % 2 = 0 THEN {<<"C04", "success_unrequested">>} ELSE {})
@@ -151,7 +154,9 @@ FireFails(G, S, ln) ==
      \cup (IF S.ev[x].ncompl >= 1 THEN {<<"C05", "twice">>} ELSE {})
      \cup (IF \E d \in Closure(S, x) : ~Drained(S, d) THEN {<<"C05", "early">>} ELSE {})
    ELSE IF ln.y = 5 /\ Known(S, x) THEN   \* exception
-     (IF S.ev[x].nexc >= S.ev[x].nraise + (IF S.raised THEN 1 ELSE 0) THEN {<<"C04", "exc_count">>} ELSE {})
+     (IF ln.d % 100 = 1      \* not a raise of the program: circuits' own code failed while handling x
+      THEN {<<IF S.ev[x].ngen > 0 \/ S.waits # {} THEN "C06" ELSE "C04", "internal_error">>}
+      ELSE IF S.ev[x].nexc >= S.ev[x].nraise + (IF S.raised THEN 1 ELSE 0) THEN {<<"C04", "exc_count">>} ELSE {})
    ELSE {})
 
 DispFails(G, S, ln) ==
@@ -237,6 +242,18 @@ VendFails(G, S, ln) ==
        \cup (IF (ln.f = 1) # (S.ev[e].nraise > 0) THEN {<<"C04", "errors_flag">>} ELSE {})
        \cup (IF (ln.x = 1) # (Len(S.ev[e].results) > 1) THEN {<<"C04", "value_shape">>} ELSE {})
 
+(* run() / stop(): the line `runret` is written when run() has returned to its caller:
+   x = 0 normal return, 1 SystemExit; v = exit code (-1 none, -2 not an int); d = events still
+   queued; f = 1 if the manager still claims to be running *)
+RunretFails(G, S, ln) ==
+  (IF S.run.nstarted # 1 THEN {<<"C08", "started">>} ELSE {})
+  \cup (IF S.run.nstopped # 1 THEN {<<"C08", "stopped">>} ELSE {})
+  \cup (IF ln.d > 0 \/ \E e \in DOMAIN S.ev : S.ev[e].st = 0 /\ ~S.ev[e].cancelled THEN {<<"C08", "undrained">>} ELSE {})
+  \cup (IF ~S.run.stopreq THEN {<<"C08", "return_without_stop">>} ELSE {})
+  \cup (IF S.run.stopreq /\ S.run.code = -1 /\ ln.x # 0 /\ ln.v # -1 THEN {<<"C08", "code">>}
+        ELSE IF S.run.stopreq /\ S.run.code # -1 /\ (ln.x # 1 \/ ln.v # S.run.code) THEN {<<"C08", "code">>} ELSE {})
+  \cup (IF ln.f = 1 THEN {<<"C08", "still_running">>} ELSE {})
+
 (* call / wait *)
 RECURSIVE SumSeq(_)
 SumSeq(s) == IF s = <<>> THEN 0 ELSE Head(s) + SumSeq(Tail(s))
@@ -264,6 +281,7 @@ Fails(G, S, ln) ==
     [] ln.k = "vend"   -> VendFails(G, S, ln)
     [] ln.k = "quiet"  -> QuietFails(G, S, ln)
     [] ln.k = "resume" -> ResumeFails(G, S, ln)
+    [] ln.k = "runret" -> IF S.run.active THEN RunretFails(G, S, ln) ELSE {<<"M", "runret_without_run">>}
     [] ln.k = "yld"    -> IF ln.f = 1 /\ WaitOf(S, ln.e, ln.h) # {} THEN {<<"C06", "double_suspend">>} ELSE {}
     [] OTHER -> {}
 
@@ -284,7 +302,10 @@ ApplyFire(G, S, ln) ==
             [] ln.y = 2 -> [S1 EXCEPT !.ev[x].nfail = @ + 1]
             [] ln.y = 3 -> [S1 EXCEPT !.ev[x].ncompl = @ + 1]
             [] ln.y = 4 -> [S1 EXCEPT !.ev[x].ndone = @ + 1]
-            [] ln.y = 5 -> [S1 EXCEPT !.ev[x].nexc = @ + 1]
+            [] ln.y = 5 -> IF ln.d % 100 = 1
+                           THEN [S1 EXCEPT !.ev[x].nexc = @ + 1, !.ev[x].nraise = @ + 1, !.ev[x].results = Append(@, -1),
+                                           !.ev[x].gens = IF @ > 0 THEN @ - 1 ELSE @, !.raised = TRUE]
+                           ELSE [S1 EXCEPT !.ev[x].nexc = @ + 1]
             [] OTHER -> S1
 
 ApplyDisp(G, S, ln) ==
@@ -295,7 +316,10 @@ ApplyDisp(G, S, ln) ==
               b  == IF newpass THEN Range(S.q[c]) ELSE S.batch[c]
               S1 == [S EXCEPT !.batch[c] = b \ {e},
                               !.q[c] = IF newpass THEN <<>> ELSE @]
-              S2 == IF S.ev[e].name = "generate_events" THEN [S1 EXCEPT !.ticks = @ + 1] ELSE S1
+              S2 == IF S.ev[e].name = "generate_events" THEN [S1 EXCEPT !.ticks = @ + 1]
+                    ELSE IF S.ev[e].name = "started" /\ S.run.active THEN [S1 EXCEPT !.run.nstarted = @ + 1]
+                    ELSE IF S.ev[e].name = "stopped" /\ S.run.active THEN [S1 EXCEPT !.run.nstopped = @ + 1]
+                    ELSE S1
           IN IF ln.f = 1 THEN [S1 EXCEPT !.ev[e].skipped = TRUE, !.ev[e].cancelled = TRUE]
              ELSE [S2 EXCEPT !.ev[e].st = 2, !.ev[e].disproot = c,
                              !.ev[e].expect = Matching(G, S, c, S.ev[e].name, S.ev[e].ch)]
@@ -327,11 +351,17 @@ ApplyOp(G, S, ln) ==
     [] ln.n = "cancel" -> IF Known(S, ln.x) /\ S.ev[ln.x].st = 0 THEN [S EXCEPT !.ev[ln.x].cancelled = TRUE] ELSE S
     [] ln.n = "flush"  -> [S EXCEPT !.nflush = @ + 1]
     [] ln.n \in {"reg", "unreg", "addh", "rmh"} -> StructOp(G, S, ln)
+    [] ln.n \in {"stopmgr", "exit", "stop2", "kbint"} ->
+         IF S.run.active /\ ~S.run.stopreq
+         THEN [S EXCEPT !.run.stopreq = TRUE, !.run.code = IF ln.n = "kbint" THEN -1 ELSE ln.x] ELSE S
     [] OTHER -> S
 
 ApplyApi(G, S, ln) ==
   CASE ln.n \in {"reg", "unreg", "addh", "rmh"} -> StructOp(G, S, ln)
     [] ln.n = "cancel" -> IF Known(S, ln.e) /\ S.ev[ln.e].st = 0 THEN [S EXCEPT !.ev[ln.e].cancelled = TRUE] ELSE S
+    [] ln.n = "run"    -> [S EXCEPT !.run = [active |-> TRUE, c |-> ln.c, nstarted |-> 0, nstopped |-> 0, stopreq |-> FALSE,
+                                             code |-> -1, n |-> S.run.n + 1]]
+    [] ln.n = "stop"   -> IF S.run.active /\ ~S.run.stopreq THEN [S EXCEPT !.run.stopreq = TRUE, !.run.code = ln.x] ELSE S
     [] OTHER -> S
 
 ApplyYld(G, S, ln) ==
@@ -366,6 +396,7 @@ Apply(G, S, ln) ==
     [] ln.k = "gend"   -> ApplyGend(G, S, ln)
     [] ln.k = "resume" -> [S EXCEPT !.waits = @ \ WaitOf(S, ln.e, ln.h)]
     [] ln.k = "vitem"  -> EvUpd(S, ln.e, LAMBDA r : [r EXCEPT !.proj = Append(@, ln.v)])
+    [] ln.k = "runret" -> [S EXCEPT !.run.active = FALSE]
     [] OTHER -> S
 
 (* first failing clause per property *)
@@ -373,7 +404,7 @@ Apply(G, S, ln) ==
    such constructors built while folding over lines re-evaluates exponentially.  Verdicts are
    therefore kept in a record (eager), and rebuilt sequences are forced with Force().        *)
 Bad0 == [C01 |-> <<"", 0>>, C02 |-> <<"", 0>>, C04 |-> <<"", 0>>, C05 |-> <<"", 0>>,
-         C06 |-> <<"", 0>>, C07 |-> <<"", 0>>, M |-> <<"", 0>>]
+         C06 |-> <<"", 0>>, C07 |-> <<"", 0>>, C08 |-> <<"", 0>>, M |-> <<"", 0>>]
 Upd1(bad, fails, l, p) ==
   IF bad[p][1] # "" THEN bad[p]
   ELSE IF \E f \in fails : f[1] = p THEN <<(CHOOSE f \in fails : f[1] = p)[2], l>>
@@ -382,5 +413,5 @@ UpdBad(bad, fails, l) ==
   IF fails = {} THEN bad
   ELSE [C01 |-> Upd1(bad, fails, l, "C01"), C02 |-> Upd1(bad, fails, l, "C02"), C04 |-> Upd1(bad, fails, l, "C04"),
         C05 |-> Upd1(bad, fails, l, "C05"), C06 |-> Upd1(bad, fails, l, "C06"), C07 |-> Upd1(bad, fails, l, "C07"),
-        M |-> Upd1(bad, fails, l, "M")]
+        C08 |-> Upd1(bad, fails, l, "C08"), M |-> Upd1(bad, fails, l, "M")]
 =============================================================================
